@@ -13,6 +13,8 @@ Section Heap.
   Hypothesis cmp_anti : forall a b, cmp b a = - cmp a b.
   Hypothesis cmp_le_trans : forall a b c, cmp a b <= 0 -> cmp b c <= 0 -> cmp a c <= 0.
   Hypothesis cmp_eq_hit : forall a b, cmp a b = 0 -> hit a = hit b.
+  (* every lemma of the section takes (cmp, cmp_anti, cmp_le_trans, cmp_eq_hit), used or not *)
+  Set Default Proof Using "All".
 
   Definition d0 : dmatch := {| hit := 0; did := []; score := 0; keys := [] |}.
   Definition get (h : list dmatch) (i : nat) : dmatch := nth i h d0.
@@ -307,8 +309,9 @@ Section Heap.
       + unfold heap_ok, heap_upto. rewrite firstn_length, Hlen'. rewrite Nat.min_l by lia.
         intros j Hj. assert (Hpj : (parent j < j)%nat) by (unfold parent in *; lia).
         rewrite !get_firstn by lia. apply Hup. exact Hj.
-      + rewrite <- (swap_perm h 0 n), <- P. rewrite (firstn_snoc_get h' n Hlen') at 2.
-        apply Permutation_cons_append.
+      + pose proof (firstn_snoc_get h' n Hlen') as Hsn.
+        transitivity (firstn n h' ++ [get h' n]); [apply Permutation_cons_append|].
+        rewrite <- Hsn. rewrite P. apply swap_perm.
       + intros y Hy. rewrite Hx.
         assert (Hy' : In y h).
         { apply (Permutation_in y (l := h')); [rewrite P; apply swap_perm|].
